@@ -960,7 +960,9 @@ def hamt_value_type(c):
     gens = c.callee.generics
     ids = c.callee.idents
     for i, name in enumerate(ids):
-        if name in ('Hamt', 'Kamt', 'HamtImpl', 'KamtImpl') and gens[i]:
+        if name in ('Kamt', 'KamtImpl') and gens[i]:
+            return gens[i][2] if len(gens[i]) > 2 else None      # Kamt<BS, K, V, H>
+        if name in ('Hamt', 'HamtImpl') and gens[i]:
             return gens[i][1] if len(gens[i]) > 1 else None
         if name in ('AmtImpl', 'Amt') and gens[i]:
             return gens[i][0]
@@ -968,7 +970,9 @@ def hamt_value_type(c):
     if q:
         a = type_args(q)
         h = type_head(q)
-        if h in ('Hamt', 'Kamt', 'HamtImpl', 'KamtImpl') and len(a) > 1:
+        if h in ('Kamt', 'KamtImpl') and len(a) > 2:
+            return a[2]
+        if h in ('Hamt', 'HamtImpl') and len(a) > 1:
             return a[1]
         if h in ('AmtImpl', 'Amt') and a:
             return a[0]
